@@ -808,6 +808,10 @@ func runTree(r *ev.Run, id string, idx int) {
 	if nviol < 4 {
 		checkTreeAfterFault(r, rng, st, root, schemaBlobs, viol)
 	}
+	// ---- a blob BELOW a bytesRef part unfetchable, through every read path (deepfaults.go)
+	if nviol < 4 {
+		checkDeepFaults(r, r.Rand("deepfault/"+id), st, root.ref, want, "tree", viol)
+	}
 
 	// ---- ForeachChunk over generated trees.  The documented contract (filereader.go):
 	// fn is never given a bytesRef part, and schemaPath leads from the root to the schema
